@@ -339,6 +339,7 @@ def scenario_extrema(ch, tr, st):
     if cols == 1:
         st.fault("one_column_ext")
     ops = []
+    st.rendered["ops"] = ops
     for j in range(n):
         vals = np.array([[float(ch.draw(11, "val") - 5) for _ in range(cols)] for _ in range(rows)])
         if cols == 2:
@@ -1106,6 +1107,34 @@ def op_split_merge(M, ch, tr, st, ev):
     cases = [c for _, c in sorted(ev.done)]
     if list(sp.keys()) != cases:
         raise Violation("split_cases_wrong", "DR_Results.split", got=list(sp.keys()), expected=cases)
+    # each piece must hold exactly that case's data
+    for (j, case) in sorted(ev.done):
+        for cs in ev.cats:
+            where = f"split:{cs.name}"
+            pc = sp[case][cs.name]
+            R, mx, mn = _model_case_mm(ev, cs, case)
+            sc = _scale(R)
+            _need(_close(pc.ext, np.column_stack((mx, mn)), TOL, sc), "split_piece_wrong", where + ".ext", case=case)
+            _need(_close(pc.mx[:, 0], mx, TOL, sc), "split_piece_wrong", where + ".mx", case=case)
+            _need(_close(pc.mn[:, 0], mn, TOL, sc), "split_piece_wrong", where + ".mn", case=case)
+            _need(_close(pc.ext_x, np.column_stack((ev.res[cs.name].mx_x[:, j], ev.res[cs.name].mn_x[:, j])), 0.0, 1.0), "split_piece_wrong", where + ".ext_x", case=case)
+            if list(pc.cases) != [case] or pc.event != case:
+                raise Violation("split_piece_wrong", where + ".cases", got=list(pc.cases), event=pc.event, expected=case)
+            if cs.histpv is not None:
+                # split() carries `hist` (time domain) over; it does not carry `frf`
+                # (observation recorded in DESIGN.md; C16 does not promise it), so the
+                # stored history of a piece is judged only where one is present
+                H = getattr(pc, "hist" if ev.domain == "time" else "frf", None)
+                if ev.domain == "time" and (H is None or H.shape[0] != 1):
+                    raise Violation("split_piece_wrong", where + ".hist", case=case, got=None if H is None else str(H.shape))
+                if H is not None:
+                    _need(_close(H[0], ev.R[case][cs.name][cs.hist_idx], TOL, sc), "split_piece_wrong", where + ".hist", case=case)
+            if cs.srspv is not None:
+                Qs = cs.srsQs if isinstance(cs.srsQs, tuple) else (cs.srsQs,)
+                for q in Qs:
+                    exp = model_srs(M, ev, cs, case, q)
+                    _need(_close(pc.srs.ext[q], exp, 1e-8, _scale(exp)), "split_piece_wrong", where + f".srs.ext[{q}]", case=case)
+                    _need(_close(pc.srs.srs[q][0], exp, 1e-8, _scale(exp)), "split_piece_wrong", where + f".srs.srs[{q}]", case=case)
     order = ch.perm(len(cases), "split_order")
     drop = None
     if len(cases) > 1 and ch.flip(1, 3, "drop_case"):
